@@ -10,7 +10,19 @@
 //   section cpodes : CPodesIntegrator (its CPODES memory cannot be canonicalised), plain
 //                    enumeration below a fixed first call.
 //   section stepby-doc : documented meaning of stepBy()'s second argument.
-#include "SimTKmath.h"
+//   section systems: the same request histories and the same clauses on four further systems (SYSTEM dimension):
+//                    1 ode     nonlinear ODE with analytic solution (logistic + stiff-ish Prothero-Robinson component)
+//                    2 pend3   unconstrained multibody system (three pins under gravity) through MultibodySystem
+//                    3 ballrod constrained multibody system (Ball joint = quaternion, Pin, Rod loop)
+//                    4 events  system 1 + nonlinear time witness whose handler modifies the state, and a handler
+//                              run by the harness at every ReachedScheduledEvent (TimeStepper protocol: handleEvents +
+//                              Integrator::reinitialize)
+//                    Every system carries a clock coordinate (qdot=u, udot=0, u=1: q == t for every method), so the
+//                    clause "the returned state is the trajectory point of its time" stays exact; in addition the
+//                    returned state is compared with the analytic / tight reference trajectory and, for system 3,
+//                    with the constraint manifold.  System 0 (the clock alone) keeps all its keys; keys of systems
+//                    1..4 carry the suffix @<system>.
+#include "Simbody.h"
 #include "IntegratorRep.h"
 #include "AbstractIntegratorRep.h"
 #include "CPodesIntegratorRep.h"
@@ -38,32 +50,67 @@ static const Lattice LATTICES[3] = {
     {{.125, .25, .375, .75, 1.0, 1.25}, 1.0, .25, .125, .3, .375 + 3e-6},   // binary-exact: fixed steps land on lattice times
 };
 static const int NL = 8;   // lattice index 0 = now, 1..6 = v[0..5], 7 = infinity
+static const int SYS_DEPTH_QUICK = 2, SYS_DEPTH_THOROUGH = 2;   // section systems: requests below the first call
 
 static const char* INTEG_NAMES[] = {"ExplicitEuler", "RungeKutta2", "RungeKutta3", "RungeKuttaFeldberg", "RungeKuttaMerson",
                                     "Verlet", "SemiExplicitEuler", "SemiExplicitEuler2", "CPodes", "CPodesAdams"};
 static const int CPODES0 = 8;
 enum { OptReturnEvery = 1, OptNoInterp = 2, OptFixed = 4, OptLimit1 = 8, OptFinal = 16 };
 
+// ---------------------------------------------------------------- the SYSTEM dimension
+enum { SysTrivial = 0, SysOde = 1, SysPend = 2, SysBallRod = 3, SysEvents = 4, NSYS = 5 };
+static const char* SYS_NAMES[NSYS] = {"trivial", "ode", "pend3", "ballrod", "events"};
+// continuous parameters of the systems: one set per lattice (VERIF_SEED selects the lattice in the quick tier)
+struct OdeParams { double k, eps, lam, om, del, jumpTrig, jumpSched, kappa; };
+static const OdeParams ODEP[3] = {
+    // overdamped pendulum z0' = -k sin z0, z0(0) = pi - eps: leaves the unstable equilibrium slowly and swings down fast at t ~ ln(2/eps)/k, which
+    // lies inside the lattice; closed form tan(z0/2) = tan(z0(0)/2) exp(-k t); globally Lipschitz, so no method blows up at any imposed step size.
+    // Prothero-Robinson z1' = -lam (z1 - cos(om t)) - om sin(om t), z1(0) = 1 + del, closed form cos(om t) + del exp(-lam t).
+    // events system: handler of the witness adds jumpTrig to z1, the scheduled handler subtracts jumpSched; witness (t-c)(1+kappa (t-c))
+    {10, .02, 9, 3, .5, .3, .2, 1.0},
+    {8, .03, 8, 2, .4, .25, .15, 1.0},
+    {12, .01, 10, 4, .6, .35, .25, 1.0},
+};
+struct MbParams { double g, L, m, q0[3], u0[3], wBall[3], uPin; };
+static const MbParams MBP[3] = {
+    // gravity is weak enough for the imposed fixed steps (0.25..0.35) to stay stable for the higher-order methods
+    {2.5, 1.0, 1.0, {.8, -.5, .3}, {.5, -.3, .2}, {.4, -.3, .6}, .2},
+    {3.0, 1.2, 1.5, {-.7, .6, -.2}, {-.4, .5, .1}, {-.5, .2, .4}, -.3},
+    {2.0, 0.8, 0.8, {.6, .4, -.5}, {.3, .2, -.6}, {.3, .5, -.4}, .25},
+};
+static const double REF_H = 1.0 / 1024, REF_T = 3.0;      // grid of the tight reference trajectory of the multibody systems
+
 struct Cfg {
     int lat = 0, integ = 0, mask = 0, wit = 0;   // wit: 0 none, 1 crossing at c1, 2 crossing at c2
+    int sys = 0;                                 // SYSTEM dimension
     bool cpodes() const { return integ >= CPODES0; }
     const Lattice& L() const { return LATTICES[lat]; }
     double F() const { return (mask & OptFinal) ? L().F : Infinity; }
-    double crossing() const { return wit == 1 ? L().c1 : wit == 2 ? L().c2 : Infinity; }
+    // events system: its nonlinear witness is localised to windows of 1e-6..1e-5 (the documented requirement is <= 1e-5), so the crossing
+    // follows the lattice time by 3e-7 instead of 3e-6 -- otherwise the lattice time could never lie inside a window
+    // It also has the variants 3 (crossing 3e-7 before that lattice time) and 4 (3e-7 before the final time).
+    double crossing() const {
+        if (sys == SysEvents) return wit == 1 ? L().c1 : wit == 2 ? L().v[2] + 3e-7 : wit == 3 ? L().v[2] - 3e-7 : wit == 4 ? L().F - 3e-7 : (double)Infinity;
+        return wit == 1 ? L().c1 : wit == 2 ? L().c2 : Infinity;
+    }
     std::string str() const {
-        return "lat=" + std::to_string(lat) + " integ=" + INTEG_NAMES[integ] + " mask=" + std::to_string(mask) + " wit=" + std::to_string(wit);
+        return "lat=" + std::to_string(lat) + " integ=" + INTEG_NAMES[integ] + " mask=" + std::to_string(mask) + " wit=" + std::to_string(wit) +
+               (sys ? " sys=" + std::to_string(sys) : std::string());
     }
     std::string optStr() const {
         std::string s;
+        if (sys) s += std::string("system=") + SYS_NAMES[sys] + " ";
         if (mask & OptReturnEvery) s += "returnEveryInternalStep ";
         if (mask & OptNoInterp) s += "allowInterpolation=false ";
         if (mask & OptFixed) s += "fixedStep=" + verif::fmtd(L().hfix) + " ";
         if (mask & OptLimit1) s += "internalStepLimit=1 ";
         if (mask & OptFinal) s += "finalTime=" + verif::fmtd(L().F) + " ";
-        if (wit) s += "witness(t-" + verif::fmtd(crossing()) + ") ";
+        if (wit) s += std::string(sys == SysEvents ? "witness((t-c)(1+(t-c))), c=" : "witness(t-") + verif::fmtd(crossing()) + ") ";
         return s;
     }
     std::string keyPrefix() const { return std::string(INTEG_NAMES[integ]) + ((mask & OptNoInterp) ? "/no-interp/" : "/"); }
+    // system 0 keeps the keys it always had; the other systems are told apart
+    std::string keySuffix() const { return sys ? std::string("@") + SYS_NAMES[sys] : std::string(); }
 };
 
 struct Op { int kind = 0, ri = 0, si = 0; };   // kind 0 stepTo, 1 stepBy
@@ -80,33 +127,172 @@ static Cfg parseCfg(const std::string& s) {
         size_t e = tok.find('='); if (e == std::string::npos) continue;
         std::string k = tok.substr(0, e), v = tok.substr(e + 1);
         if (k == "lat") c.lat = atoi(v.c_str()); else if (k == "mask") c.mask = atoi(v.c_str()); else if (k == "wit") c.wit = atoi(v.c_str());
+        else if (k == "sys") c.sys = atoi(v.c_str());
         else if (k == "integ") for (int i = 0; i < 10; ++i) if (v == INTEG_NAMES[i]) c.integ = i;
     }
     return c;
 }
 
-// ---------------------------------------------------------------- the system under integration
+// ---------------------------------------------------------------- the systems under integration
 class Witness : public TriggeredEventHandler {
 public:
     // a witness on *time* (t - c): its sign is exact, so the crossing is not blurred by interpolation roundoff in q
-    Witness(const odesys::OdeSystem& sys, Real c) : TriggeredEventHandler(Stage::Time), sys(sys), c(c) {}
+    Witness(Real c) : TriggeredEventHandler(Stage::Time), c(c) {}
     Real getValue(const State& s) const override { return s.getTime() - c; }
     void handleEvent(State&, Real, bool&) const override {}
 private:
-    const odesys::OdeSystem& sys; Real c;
+    Real c;
 };
-struct Fixture {
-    std::unique_ptr<odesys::OdeSystem> sys; State init;
-    Fixture(double crossing) {
-        sys.reset(new odesys::OdeSystem(1, 0, [](Real, const Vector&, const Vector&, const Vector&, const Vector&, Vector& udot, Vector&) { udot[0] = 0; }));
-        if (crossing < Infinity) sys->addEventHandler(new Witness(*sys, crossing));
-        init = sys->makeState(0, Vector(1, Real(0)), Vector(1, Real(1)), Vector());
+// events system: a witness that is nonlinear in time (the secant estimates of the localisation are not exact, the window can end up
+// on either side of them) but whose sign is still exact: (t-c) is exact in sign and 1+kappa(t-c) > 0 for t >= 0 (kappa c < 1).
+// Its handler changes the continuous state discontinuously (z1 += jump).
+class JumpWitness : public TriggeredEventHandler {
+public:
+    JumpWitness(const odesys::OdeSystem& sys, Real c, Real kappa, Real jump) : TriggeredEventHandler(Stage::Time), sys(sys), c(c), kappa(kappa), jump(jump) {}
+    Real getValue(const State& s) const override { const Real d = s.getTime() - c; return d * (1 + kappa * d); }
+    void handleEvent(State& s, Real, bool&) const override { s.updZ(sys.subsys())[1] += jump; }
+private:
+    const odesys::OdeSystem& sys; Real c, kappa, jump;
+};
+// lets the work budget of odesys.h see the realizations of a MultibodySystem
+class BudgetForce : public Force::Custom::Implementation {
+public:
+    void calcForce(const State&, Vector_<SpatialVec>&, Vector_<Vec3>&, Vector&) const override { odesys::spendWork(); }
+    Real calcPotentialEnergy(const State&) const override { return 0; }
+};
+struct MbModel {
+    MultibodySystem system; SimbodyMatterSubsystem matter; GeneralForceSubsystem forces;
+    MobilizedBody clock; std::vector<int> quatStart;
+    MbModel() : matter(system), forces(system) {}
+};
+
+// tight reference trajectory of a multibody system: classical RK4 written here (step REF_H) on ydot = f(t,y) as realized by the
+// system, stored with derivatives on the grid and evaluated by cubic Hermite interpolation (error ~ REF_H^4 |y''''| / 384 < 1e-10)
+struct RefTable {
+    int ny = 0; std::vector<Vector> y, yd;
+    static void deriv(const System& sys, State& s, Real t, const Vector& y, Vector& yd) {
+        s.updTime() = t; s.updY() = y; sys.realize(s, Stage::Acceleration); yd = s.getYDot();
+    }
+    void build(const System& sys, const State& init) {
+        State s = init; ny = s.getNY();
+        Vector yc = s.getY(), k1, k2, k3, k4;
+        const int n = (int)std::lround(REF_T / REF_H);
+        for (int i = 0; i <= n; ++i) {
+            const Real t = i * REF_H;
+            deriv(sys, s, t, yc, k1);
+            y.push_back(yc); yd.push_back(k1);
+            if (i == n) break;
+            deriv(sys, s, t + REF_H / 2, Vector(yc + (REF_H / 2) * k1), k2);
+            deriv(sys, s, t + REF_H / 2, Vector(yc + (REF_H / 2) * k2), k3);
+            deriv(sys, s, t + REF_H, Vector(yc + REF_H * k3), k4);
+            yc += (REF_H / 6) * (k1 + 2 * k2 + 2 * k3 + k4);
+        }
+    }
+    bool covers(Real t) const { return t >= 0 && t <= REF_T; }
+    Real distance(Real t, const Vector& yy) const {     // max-norm distance of yy from the reference at time t
+        int i = (int)std::floor(t / REF_H); if (i >= (int)y.size() - 1) i = (int)y.size() - 2; if (i < 0) i = 0;
+        const Real x = (t - i * REF_H) / REF_H, x2 = x * x, x3 = x2 * x;
+        const Real h00 = 2 * x3 - 3 * x2 + 1, h10 = x3 - 2 * x2 + x, h01 = -2 * x3 + 3 * x2, h11 = x3 - x2;
+        Real d = 0;
+        for (int j = 0; j < ny; ++j) {
+            const Real r = h00 * y[i][j] + h10 * REF_H * yd[i][j] + h01 * y[i + 1][j] + h11 * REF_H * yd[i + 1][j];
+            const Real e = std::abs(yy[j] - r);
+            if (!(e <= d)) d = e;        // NaN propagates
+        }
+        return d;
     }
 };
+
+struct Fixture {
+    int sysKind = 0, lat = 0;
+    std::unique_ptr<odesys::OdeSystem> ode; std::unique_ptr<MbModel> mb;
+    const System* system = nullptr; State init;
+    std::shared_ptr<RefTable> ref;        // multibody systems
+    Fixture(const Cfg& c) : sysKind(c.sys), lat(c.lat) {
+        const double crossing = c.crossing();
+        if (sysKind == SysTrivial) {
+            ode.reset(new odesys::OdeSystem(1, 0, [](Real, const Vector&, const Vector&, const Vector&, const Vector&, Vector& udot, Vector&) { udot[0] = 0; }));
+            if (crossing < Infinity) ode->addEventHandler(new Witness(crossing));
+            init = ode->makeState(0, Vector(1, Real(0)), Vector(1, Real(1)), Vector());
+            system = ode.get();
+        } else if (sysKind == SysOde || sysKind == SysEvents) {
+            const OdeParams P = ODEP[lat];
+            // z2' = 1: a second clock, in the z partition of the state (every consistent method and interpolant reproduces z2 == t)
+            ode.reset(new odesys::OdeSystem(1, 3, [P](Real t, const Vector&, const Vector&, const Vector& z, const Vector&, Vector& udot, Vector& zdot) {
+                udot[0] = 0; zdot[2] = 1;
+                zdot[0] = -P.k * std::sin(z[0]);
+                zdot[1] = -P.lam * (z[1] - std::cos(P.om * t)) - P.om * std::sin(P.om * t);
+            }));
+            if (crossing < Infinity) {
+                if (sysKind == SysEvents) ode->addEventHandler(new JumpWitness(*ode, crossing, P.kappa, P.jumpTrig));
+                else ode->addEventHandler(new Witness(crossing));
+            }
+            Vector z0(3); z0[0] = Pi - P.eps; z0[1] = 1 + P.del; z0[2] = 0;
+            init = ode->makeState(0, Vector(1, Real(0)), Vector(1, Real(1)), z0);
+            system = ode.get();
+        } else {
+            const MbParams P = MBP[lat];
+            mb.reset(new MbModel());
+            MbModel& M = *mb;
+            Force::Gravity(M.forces, M.matter, -YAxis, P.g);
+            Force::Custom(M.forces, new BudgetForce());
+            if (crossing < Infinity) M.system.addEventHandler(new Witness(crossing));
+            // the clock: a slider along x (gravity has no x component), u = 1, not touched by any constraint
+            M.clock = MobilizedBody::Slider(M.matter.Ground(), Transform(Vec3(0, 0, 1)), Body::Rigid(MassProperties(1, Vec3(0), Inertia(1))), Transform());
+            if (sysKind == SysPend) {
+                Body::Rigid link(MassProperties(P.m, Vec3(0), P.m * UnitInertia::cylinderAlongY(.05, P.L / 2)));
+                MobilizedBody::Pin b1(M.matter.Ground(), Transform(Vec3(0)), link, Transform(Vec3(0, P.L, 0)));
+                MobilizedBody::Pin b2(b1, Transform(Vec3(0, -P.L * .5, 0)), link, Transform(Vec3(0, P.L, 0)));
+                MobilizedBody::Pin b3(b2, Transform(Vec3(0, -P.L * .5, 0)), link, Transform(Vec3(0, P.L * .7, 0)));
+                M.system.realizeTopology();
+                State s = M.system.getDefaultState();
+                M.system.realizeModel(s);
+                MobilizedBody* bs[3] = {&b1, &b2, &b3};
+                for (int i = 0; i < 3; ++i) { bs[i]->setOneQ(s, 0, P.q0[i]); bs[i]->setOneU(s, 0, P.u0[i]); }
+                M.clock.setOneU(s, 0, 1);
+                init = s;
+            } else {
+                const Vec3 comA(.2, -.4, .1);
+                Inertia IA = (P.m * UnitInertia::sphere(.2)); IA = IA.shiftFromMassCenter(-comA, P.m);
+                Body::Rigid bodyA(MassProperties(P.m, comA, IA));
+                Body::Rigid bodyB(MassProperties(P.m * .6, Vec3(0), (P.m * .6) * UnitInertia::brick(Vec3(.1, .2, .1))));
+                MobilizedBody::Ball A(M.matter.Ground(), Transform(Vec3(0)), bodyA, Transform(Vec3(0)));
+                MobilizedBody::Pin B(M.matter.Ground(), Transform(Vec3(1, 0, 0)), bodyB, Transform(Vec3(0, P.L + .2, 0)));
+                const Vec3 pA(.3, -.6, 0), pB(0, -.2, .1);
+                {   // rod length = distance of the two stations in the default configuration (so that configuration is assembled)
+                    const Vec3 a = pA, b = Vec3(1, 0, 0) - Vec3(0, P.L + .2, 0) + pB;
+                    Constraint::Rod(A, pA, B, pB, (a - b).norm());
+                }
+                M.system.realizeTopology();
+                State s = M.system.getDefaultState();
+                M.system.realizeModel(s);
+                A.setUToFitAngularVelocity(s, Vec3(P.wBall[0], P.wBall[1], P.wBall[2]));
+                B.setOneU(s, 0, P.uPin);
+                M.clock.setOneU(s, 0, 1);
+                M.system.realize(s, Stage::Velocity);
+                M.system.project(s, 1e-12);
+                init = s;
+                M.quatStart.push_back((int)A.getFirstQIndex(s));
+            }
+            system = &M.system;
+            M.system.realize(init, Stage::Acceleration);
+            // the reference trajectory does not depend on the witness variant (the time witness has a no-op handler)
+            static std::map<std::pair<int, int>, std::shared_ptr<RefTable>> refs;
+            auto& r = refs[{sysKind, lat}];
+            if (!r) { r.reset(new RefTable()); r->build(M.system, init); }
+            ref = r;
+        }
+    }
+    // the coordinate that equals t on the exact trajectory whatever the method, and its rate (== 1)
+    double clock(const State& s) const { return ode ? ode->q(s, 0) : mb->clock.getOneQ(s, 0); }
+    double clockRate(const State& s) const { return ode ? ode->u(s, 0) : mb->clock.getOneU(s, 0); }
+    // systems 1, 4: the clock in the z partition (NaN-free "no such clock" = the state's own time)
+    double zClock(const State& s) const { return (ode && sysKind != SysTrivial) ? ode->z(s, 2) : s.getTime(); }
+};
 static Fixture& fixtureFor(const Cfg& c) {
-    static std::map<std::pair<int, int>, std::unique_ptr<Fixture>> cache;
-    auto& p = cache[{c.lat, c.wit}];
-    if (!p) p.reset(new Fixture(c.crossing()));
+    static std::map<std::tuple<int, int, int>, std::unique_ptr<Fixture>> cache;
+    auto& p = cache[std::make_tuple(c.sys, c.lat, c.wit)];
+    if (!p) p.reset(new Fixture(c));
     return *p;
 }
 static Integrator* makeIntegrator(const Cfg& c, const System& sys) {
@@ -173,6 +359,21 @@ static void flushCounters(verif::Run& run) {
     for (int i = 0; i < 16; ++i) if (g_status[i]) { run.count(std::string("status:") + Integrator::getSuccessfulStepStatusString((Status)i).c_str(), g_status[i]); g_status[i] = 0; }
 }
 
+// ---------------------------------------------------------------- calibrated bounds of the reference comparison
+// max-norm distance of a returned state from the reference trajectory at the returned time, error-controlled variable-step runs at
+// the default accuracy 1e-3 (which the event-window clauses rely on: window = 0.1 * accuracy * timescale = 1e-5).  Measured worst
+// values are in notes/C19.md; a bound is >= 100 x the worst value seen on the unchanged tree over all three lattices.
+static double referenceBound(int sys, int integ) {
+    if (getenv("C19_CALIBRATE")) return Infinity;       // calibration runs: record only
+    //                               Euler  RK2  RK3  RKF  RKM  Verlet SEE  SEE2 CPodes Adams     (SEE has no error control: recorded only)
+    static const double B[NSYS][10] = {{0, 0, 0, 0, 0, 0, 0, 0, 0, 0},
+                                       {50, 4, 2, 2, 4, 20, 0, 40, 20, 5},          // ode
+                                       {30, .3, .2, 3, .3, 2, 0, 8, 2, .9},         // pend3
+                                       {10, .3, .2, 2, .5, 2, 0, 3, .5, 60},        // ballrod
+                                       {50, 4, 2, 2, 4, 20, 0, 40, 40, 8}};         // events
+    return B[sys][integ] > 0 ? B[sys][integ] : (double)Infinity;
+}
+
 // ---------------------------------------------------------------- one history on a fresh object
 // A history is first executed without building the textual trace; if any clause fails it is executed
 // again with tracing on and only that second execution reports (so violations carry the full call log).
@@ -187,9 +388,72 @@ struct Exec {
     double sPending = -Infinity;  // scheduled time of the previous request while it has not been reached yet
     Status prevStatus = Integrator::InvalidSuccessfulStepStatus;
     uint64_t outcomeHash = 1469598103934665603ULL;
+    // systems 1,4: the Prothero-Robinson component is cos(om t) + dRef exp(-lam (t - teRef)); the handlers of system 4 move dRef
+    double dRef = 0, teRef = 0;
+    // system 4: a handler has modified the advanced state and the integrator was reinitialized: the next return must be
+    // StartOfContinuousInterval at the time and with the state the handler left
+    bool expectStart = false; double handledT = 0, handledZ1 = 0;
+    int stalls = 0;               // ReachedStepLimit returns that did not advance time
+    std::string refOracle, consOracle; double refBound = Infinity;
     Exec(verif::Run& run, const Cfg& c, bool tracing) : run(run), cfg(c), fx(fixtureFor(c)), tracing(tracing) {
-        I.reset(makeIntegrator(c, *fx.sys));
+        I.reset(makeIntegrator(c, *fx.system));
         I->initialize(fx.init);
+        if (cfg.sys == SysOde || cfg.sys == SysEvents) dRef = ODEP[cfg.lat].del;
+        if (cfg.sys) {
+            const bool fixed = (cfg.mask & OptFixed) || !I->methodHasErrorControl();
+            refOracle = std::string("state-minus-reference@") + SYS_NAMES[cfg.sys] + ":" + INTEG_NAMES[cfg.integ] + (fixed ? "(fixed-step)" : "");
+            refBound = fixed ? (double)Infinity : referenceBound(cfg.sys, cfg.integ);
+            consOracle = std::string("constraint-norm/tolerance@") + SYS_NAMES[cfg.sys] + ":" + INTEG_NAMES[cfg.integ];
+        }
+    }
+    // residual with the two-pass protocol of check()
+    void resid(const std::string& oracle, double res, double bound, const std::string& keySuffix) {
+        if (!(res <= bound) && !tracing) sawFailure = true;
+        else if ((res <= bound) != tracing || run.verbose)
+            run.residual(oracle, res, bound, [&] { return where(); }, [&] { return replay(); }, keySuffix);
+    }
+    // distance of the returned state from the analytic / tight reference trajectory at the state's own time (NaN: not available)
+    double referenceDistance(const State& st) const {
+        const double t = st.getTime();
+        if (fx.ode) {
+            const OdeParams& P = ODEP[cfg.lat];
+            const double z0 = 2 * std::atan(std::tan((Pi - P.eps) / 2) * std::exp(-P.k * t));
+            const double z1 = std::cos(P.om * t) + dRef * std::exp(-P.lam * (t - teRef));
+            return std::max(std::abs(fx.ode->z(st, 0) - z0), std::abs(fx.ode->z(st, 1) - z1));
+        }
+        if (!fx.ref->covers(t)) return NaN;
+        return fx.ref->distance(t, st.getY());
+    }
+    // system 3: weighted RMS norms of the position (incl. quaternion) and velocity constraint errors over the tolerance in use
+    double constraintResidual(const State& returned) const {
+        // the integrator's own state is not touched: a state it left below Stage::Velocity is judged on a copy
+        State copy; if (returned.getSystemStage() < Stage::Velocity) { copy = returned; fx.system->realize(copy, Stage::Velocity); }
+        const State& s = returned.getSystemStage() < Stage::Velocity ? copy : returned;
+        auto rms = [](const Vector& e, const Vector& w) { long double ss = 0; for (int i = 0; i < e.size(); ++i) { long double x = (long double)e[i] * (i < w.size() ? (long double)w[i] : 1.0L); ss += x * x; } return e.size() ? (double)sqrtl(ss / e.size()) : 0.0; };
+        double worst = std::max(rms(s.getQErr(), s.getQErrWeights()), rms(s.getUErr(), s.getUErrWeights()));
+        for (int q0 : fx.mb->quatStart) { long double ss = 0; for (int k = 0; k < 4; ++k) ss += (long double)s.getQ()[q0 + k] * s.getQ()[q0 + k]; worst = std::max(worst, (double)fabsl(sqrtl(ss) - 1)); }
+        if (run.verbose && getenv("C19_TRACE")) printf("    constraints at t=%.17g: perr rms %.3g (n=%d) verr rms %.3g (n=%d) tol %.3g\n", s.getTime(), rms(s.getQErr(), s.getQErrWeights()), s.getQErr().size(), rms(s.getUErr(), s.getUErrWeights()), s.getUErr().size(), I->getConstraintToleranceInUse());
+        return worst / I->getConstraintToleranceInUse();
+    }
+    // system 4 plays the TimeStepper's part after a return: run the handlers on the advanced state, then reinitialize
+    void afterReturn(Status st) {
+        if (cfg.sys != SysEvents) return;
+        if (st != Integrator::ReachedEventTrigger && st != Integrator::ReachedScheduledEvent) return;
+        const OdeParams& P = ODEP[cfg.lat];
+        const double te = I->getAdvancedTime();
+        Stage lowest = Stage::Infinity; double jump = 0;
+        if (st == Integrator::ReachedEventTrigger) {
+            HandleEventsOptions opts(I->getConstraintToleranceInUse()); HandleEventsResults results;
+            fx.system->handleEvents(I->updAdvancedState(), Event::Cause::Triggered, I->getTriggeredEvents(), opts, results);
+            lowest = results.getLowestModifiedStage(); jump = P.jumpTrig;
+        } else {
+            I->updAdvancedState().updZ(fx.ode->subsys())[1] -= P.jumpSched;      // what a scheduled handler would do
+            lowest = Stage::Dynamics; jump = -P.jumpSched;
+        }
+        I->reinitialize(lowest, false);
+        dRef = dRef * std::exp(-P.lam * (te - teRef)) + jump; teRef = te;
+        expectStart = true; handledT = te; handledZ1 = fx.ode->z(I->getAdvancedState(), 1);
+        if (tracing) { char b[200]; snprintf(b, sizeof b, "      handler: z1 %+g at tAdv=%.17g, reinitialize(%s)\n", jump, te, lowest.getName().c_str()); trace += b; }
     }
     double latticeValue(int i) const { return i == 0 ? I->getTime() : i == 7 ? (double)Infinity : cfg.L().v[i - 1]; }
     // CPODES needs a finite target (its first step size is derived from it: step(tout=inf) fails with h=inf), and
@@ -221,7 +485,7 @@ struct Exec {
     template <class M> void check(bool cond, const char* clause, const M& msg) {
         if (cond) { if (!tracing || run.verbose) { run.acc.transitions++; g_ok[clause]++; } return; }
         if (!tracing) { sawFailure = true; return; }
-        run.expect(false, cfg.keyPrefix() + clause, [&] { return std::string(clause) + ": " + msg() + "\n  at " + where(); }, [&] { return replay(); });
+        run.expect(false, cfg.keyPrefix() + clause + cfg.keySuffix(), [&] { return std::string(clause) + ": " + msg() + "\n  at " + where(); }, [&] { return replay(); });
     }
 
     // perform one request and judge it.  `judge` false = replaying an already-judged prefix.
@@ -231,6 +495,7 @@ struct Exec {
         const bool oldWindow = cfg.wit ? windowPredatesRequest() : false;
         Status st = Integrator::InvalidSuccessfulStepStatus; bool threw = false; std::string what;
         odesys::workBudget() = 20000;      // realizations; an ordinary request on this lattice needs < 500
+        const int failuresBefore = cfg.sys ? I->getNumErrorTestFailures() + I->getNumConvergenceTestFailures() : 0;
         try {
             if (kind == 0) st = I->stepTo(r, s);
             else st = I->stepBy(r - now, s - now);
@@ -245,7 +510,7 @@ struct Exec {
             outcomeHash = verif::hashStr("loops", outcomeHash);
             if (judge) {
                 if (!tracing) sawFailure = true;
-                else run.expect(false, std::string(INTEG_NAMES[cfg.integ]) + "/request-never-returns", [&] { return "the request kept realizing the state without returning (stopped after 20000 realizations)\n  at " + where(); }, [&] { return replay(); });
+                else run.expect(false, std::string(INTEG_NAMES[cfg.integ]) + "/request-never-returns" + cfg.keySuffix(), [&] { return "the request kept realizing the state without returning (stopped after 20000 realizations)\n  at " + where(); }, [&] { return replay(); });
             }
             dead = true; return;
         }
@@ -261,6 +526,13 @@ struct Exec {
             outcomeHash = verif::hashStr("throw", outcomeHash);
             if (!judge) return;
             if (ended) { check(true, "refuses-after-end", [] { return std::string(); }); check(I->isSimulationOver(), "simulation-over-forgotten", [&] { return std::string("isSimulationOver() false after refusing a step"); }); }
+            else if (cfg.sys && (cfg.mask & OptFixed) && I->getNumErrorTestFailures() + I->getNumConvergenceTestFailures() > failuresBefore) {
+                // Not a contract matter: on a system with a non-zero error estimate the imposed step size (minimum = maximum) cannot meet the
+                // accuracy, the method's error / convergence test failed during this call and the integrator gives up with the exception
+                // Integrator.h documents for an unsuccessful step (seen for CPodes only).  Counted; the history ends here.
+                if (!tracing) g_ok["(unspecified) step failed at the imposed fixed step size after error/convergence test failures (systems 1-4)"]++;
+                dead = true;
+            }
             else {
                 // keyed by situation: after a localised event (CPODES' internal time is beyond the window) or otherwise
                 check(false, eventSeen ? "step-failed-after-event" : "unexpected-exception", [&] { return "stepTo threw although the simulation had not ended: " + what.substr(0, 300); });
@@ -269,7 +541,8 @@ struct Exec {
             return;
         }
         const double t = I->getTime(), ta = I->getAdvancedTime();
-        const double q = fx.sys->q(I->getState(), 0), u = fx.sys->u(I->getState(), 0);
+        const double q = fx.clock(I->getState()), u = fx.clockRate(I->getState());
+        const bool startDue = expectStart; expectStart = false;
         if (tracing) {
             snprintf(line, sizeof line, "  %s %s(%.17g, %.17g) at t=%.17g -> %s t=%.17g tAdv=%.17g q=%.17g%s\n", tag, kind ? "stepBy->" : "stepTo", r, s, now,
                      Integrator::getSuccessfulStepStatusString(st).c_str(), t, ta, q, I->isStateInterpolated() ? " (interpolated)" : "");
@@ -277,7 +550,7 @@ struct Exec {
         }
         outcomeHash = verif::hashPod(t, verif::hashPod((int)st, outcomeHash)); outcomeHash = verif::hashPod(ta, outcomeHash);
         sPending = (t < s) ? s : -Infinity;
-        if (!judge) { prevT = t; prevStatus = st; if (st == Integrator::EndOfSimulation) ended = true; if (st == Integrator::ReachedEventTrigger) eventSeen = true; return; }
+        if (!judge) { prevT = t; prevStatus = st; if (st == Integrator::EndOfSimulation) ended = true; if (st == Integrator::ReachedEventTrigger) eventSeen = true; afterReturn(st); return; }
         if ((!tracing || run.verbose) && (int)st >= 0 && (int)st < 16) g_status[(int)st]++;
 
         if (ended) { check(false, "step-accepted-after-end", [] { return std::string("a step request after EndOfSimulation was accepted"); }); return; }
@@ -288,15 +561,31 @@ struct Exec {
         check(ta <= s, "advanced-passes-scheduled", [&] { return "advanced time " + verif::fmtd(ta) + " > scheduled event time " + verif::fmtd(s); });
         check(ta <= F, "advanced-passes-final", [&] { return "advanced time " + verif::fmtd(ta) + " > final time " + verif::fmtd(F); });
         {
-            const double res = std::max(std::abs(q - t), std::abs(u - 1)), bound = 1e-9;
+            const double res = std::max(std::max(std::abs(q - t), std::abs(u - 1)), std::abs(fx.zClock(I->getState()) - t)), bound = 1e-9;
             if (!(res <= bound) && !tracing) sawFailure = true;
             else if ((res <= bound) != tracing || run.verbose)
-                run.residual("state-q-minus-t", res, bound, [&] { return where(); }, [&] { return replay(); }, cfg.keyPrefix() + "returned-state-off-trajectory");
+                run.residual("state-q-minus-t", res, bound, [&] { return where(); }, [&] { return replay(); }, cfg.keyPrefix() + "returned-state-off-trajectory" + cfg.keySuffix());
+        }
+        if (cfg.sys) {
+            // the remaining state variables: distance from the analytic / tight reference trajectory at the returned time.  Judged for
+            // error-controlled variable-step runs (bound = calibrated constant, see notes); recorded only (bound inf) for fixed steps.
+            const double d = referenceDistance(I->getState());
+            if (d != d && fx.mb) { if (!tracing) g_ok["(unspecified) returned time beyond the horizon of the reference trajectory"]++; }
+            else resid(refOracle, d, refBound, cfg.keyPrefix() + "returned-state-far-from-reference");
+        }
+        if (cfg.sys == SysBallRod) {
+            const char* kind = I->isStateInterpolated() ? "interpolated" : prevStatus == Integrator::ReachedEventTrigger ? "first-state-after-event" : "step";
+            // an error-controlled method at an imposed step size accepts steps it declined to project (see notes): one key per method
+            resid(consOracle, constraintResidual(I->getState()), 1 + 1e-9, (cfg.mask & OptFixed) ? std::string("fixed-step") : std::string(kind));
+        }
+        if (startDue) {
+            check(st == Integrator::StartOfContinuousInterval, "no-start-of-interval-after-handler", [&] { return std::string("a handler modified the state and reinitialize() was called, but the next return is ") + Integrator::getSuccessfulStepStatusString(st).c_str(); });
+            check(t == handledT && fx.ode->z(I->getState(), 1) == handledZ1, "state-after-handler-not-returned", [&] { return "the return after reinitialize() is not the state the handler left at t=" + verif::fmtd(handledT); });
         }
         switch (st) {
             case Integrator::StartOfContinuousInterval:
-                check(calls == 1, "unexpected-start-of-interval", [&] { return std::string("StartOfContinuousInterval returned on call ") + std::to_string(calls); });
-                check(t == prevT && ta == t, "start-of-interval-moved", [&] { return std::string("time changed on a StartOfContinuousInterval return"); });
+                check(calls == 1 || startDue, "unexpected-start-of-interval", [&] { return std::string("StartOfContinuousInterval returned on call ") + std::to_string(calls); });
+                check(t == (startDue ? handledT : prevT) && ta == t, "start-of-interval-moved", [&] { return std::string("time changed on a StartOfContinuousInterval return"); });
                 break;
             case Integrator::ReachedReportTime:
                 check(t == r || (r >= F && t == F), "report-status-at-wrong-time", [&] { return "ReachedReportTime at t=" + verif::fmtd(t) + " but report=" + verif::fmtd(r) + " final=" + verif::fmtd(F); });
@@ -317,6 +606,9 @@ struct Exec {
             case Integrator::ReachedStepLimit:
                 check((cfg.mask & OptLimit1) != 0, "step-limit-status-without-option", [&] { return std::string("ReachedStepLimit although no internal step limit is set"); });
                 check(t > prevT, "step-limit-without-advancing", [&] { return "ReachedStepLimit at t=" + verif::fmtd(t) + ", the time of the previous return"; });
+                // an integration that has stalled (CPodes Adams on the constrained system: step size collapse) has been reported; it is
+                // not driven through thousands of further calls of 500 internal steps each
+                if (!(t > prevT) && ++stalls >= 3) dead = true;
                 break;
             case Integrator::ReachedEventTrigger: {
                 check(cfg.wit != 0, "event-without-witness", [&] { return std::string("ReachedEventTrigger but the system has no witness"); });
@@ -359,6 +651,7 @@ struct Exec {
         if (cfg.wit && !eventSeen)
             check(!(t > cfg.crossing()), "witness-crossing-not-reported", [&] { return "returned t=" + verif::fmtd(t) + " beyond the crossing at " + verif::fmtd(cfg.crossing()) + " without ReachedEventTrigger"; });
         prevT = t; prevStatus = st;
+        afterReturn(st);
     }
     void apply(const Op& o, bool judge) {
         hist.push_back(o);
@@ -369,7 +662,9 @@ struct Exec {
         if (dead) return;
         const bool hasF = cfg.F() < Infinity;
         if (!hasF && unbounded()) return;
-        int cap = hasF ? 60 : 3;
+        // system 0: a step is never shortened by error control, 60 calls reach the final time even one step per call;
+        // the other systems need as many calls as the method needs steps at accuracy 1e-3 (ExplicitEuler: < 2000)
+        int cap = hasF ? (cfg.sys ? 6000 : 60) : 3;
         int n = 0;
         while (!ended && !dead && n < cap) { call(0, Infinity, Infinity, true, "~"); n++; }
         if (hasF && !dead) {
@@ -414,6 +709,15 @@ static StepResult runHistory(verif::Run& run, const Cfg& cfg, const std::vector<
         R.ended = X.ended; R.dead = X.dead;
         if (withTail) X.tail();
         if (pass == 0) {
+            if (cfg.sys) {     // vacuity guards of the SYSTEM dimension: error control and projection really interfere
+                static const char* REJ[NSYS] = {"", "(vacuity) ode: histories with a step rejected by error control", "(vacuity) pend3: histories with a step rejected by error control",
+                                                "(vacuity) ballrod: histories with a step rejected by error control", "(vacuity) events: histories with a step rejected by error control"};
+                static const char* PRJ[NSYS] = {"", "", "", "(vacuity) ballrod: histories with a constraint projection", ""};
+                static const char* HND[NSYS] = {"", "", "", "", "(vacuity) events: histories in which a handler modified the state"};
+                if (X.I->getNumErrorTestFailures() > 0) g_ok[REJ[cfg.sys]]++;
+                if (cfg.sys == SysBallRod && X.I->getNumProjections() > 0) g_ok[PRJ[cfg.sys]]++;
+                if (cfg.sys == SysEvents && X.teRef > 0) g_ok[HND[cfg.sys]]++;
+            }
             run.evaluationDistinct(distinctCase);
             run.outcome(verif::hashMix(verif::hashStr(INTEG_NAMES[cfg.integ]), X.outcomeHash));
         }
@@ -437,7 +741,7 @@ static void dfs(verif::Run& run, const Cfg& cfg, std::vector<Op>& prefix, int de
 
 int main(int argc, char** argv) {
     verif::Run run("C19", argc, argv);
-    run.setDeadline(1200, 10800);   // safety net only: quick needs ~20-40 s on 16 idle cores (about 320 CPU-s), see notes
+    run.setDeadline(1200, 10800);   // safety net only: quick needs ~25-50 s on 16 idle cores (about 320 + 70 CPU-s for section systems), see notes
     const bool thorough = run.thorough();
     const std::vector<Op> A = alphabet();
     const std::vector<Op>& Afull = A;
@@ -451,8 +755,20 @@ int main(int argc, char** argv) {
                "from {now, 6 lattice times, inf}^2, enabled when not in the past and guaranteed to return; every case is replayed on a fresh Integrator, "
                "judged after every return, then driven to EndOfSimulation with (inf,inf). plain: all histories of length<=2 (quick: stepTo only, no witness); bfs: AbstractIntegratorRep "
                "family, breadth-first over canonical hidden states to depth " + std::to_string(bfsDepth) + "; cpodes: all histories of length<=" + std::to_string(cpDepth) +
-               " below the first call stepTo(now,now). distinct = distinct (configuration, history); all are non-trivial (each executes at least one request)";
-    run.assumptions = {"one exactly integrable system (qdot=u, udot=0, q=t): time bookkeeping is isolated from accuracy",
+               " below the first call stepTo(now,now). systems: the SYSTEM dimension -- the same clauses on four further systems (1 nonlinear ODE with analytic solution: overdamped "
+               "pendulum + Prothero-Robinson component; 2 three pins under gravity through MultibodySystem; 3 Ball joint (quaternion) + Pin + Rod loop; 4 system 1 with a nonlinear time "
+               "witness whose handler changes the state and a handler run at every ReachedScheduledEvent, followed by Integrator::reinitialize as TimeStepper does), every integrator x "
+               "32 option masks x witness variants (none / after a lattice time; events system: after / before a lattice time / before the final time; thorough adds the generic crossing), "
+               "all stepTo histories over {now, [early time,] witness lattice time, final time, [time past final,] inf}^2 (quick 16, thorough 36 operations) to depth 2 below the first "
+               "call (AbstractIntegratorRep family: breadth-first with merging; CPodes: plain), first call checked to ignore its arguments. Every system carries a clock coordinate "
+               "(qdot=u, udot=0) so 'the returned state is the trajectory point of its time' stays exact; the other coordinates are compared with the analytic / tight RK4 reference at the "
+               "returned time (calibrated bounds, error-controlled variable-step runs only) and, for system 3, with the constraint manifold (tolerance in use). "
+               "distinct = distinct (configuration, history); all are non-trivial (each executes at least one request)";
+    run.assumptions = {"the deep search (sections plain, bfs, cpodes) runs on the exactly integrable system 0 (qdot=u, udot=0, q=t), where time bookkeeping is isolated from accuracy; systems 1-4 "
+                       "(non-zero error estimates: steps rejected / shortened by error control; projection at every step of system 3; state-changing handlers in system 4) are searched to depth 2 "
+                       "below the first call over a reduced stepTo alphabet at the default accuracy 1e-3 (on which the 1e-5 event window of the witness variants rests)",
+                       "systems 1-4: an exception after error/convergence test failures at an imposed fixed step size is the documented outcome of an unsuccessful step, counted and not judged; "
+                       "the reference comparison is judged for error-controlled variable-step runs only (fixed-step runs are recorded), within 100 x the worst distance measured on the unchanged tree",
                        "request times come from the stated lattice; VERIF_SEED selects one of three lattices in the quick tier, thorough runs all three",
                        "bfs merging trusts the canonical key (status machine, advanced/interpolated/previous time and y, step sizes, event window); the plain section does not",
                        "cpodes section: the first call's arguments are fixed to (now,now); that the first call ignores its arguments is checked in the plain section on the visible state only",
@@ -482,6 +798,11 @@ int main(int argc, char** argv) {
     std::string only;
     for (size_t k = 0; k + 1 < run.extra.size(); ++k) if (run.extra[k] == "--integ") only = run.extra[k + 1];
     if (!only.empty()) { run.exhaustive = false; run.extraCoverage["restricted_to_integrator"] = "\"" + only + "\""; }
+    // development aids, also subset runs: "--section <name>" runs one section, "--sys <n>" one system of section systems
+    std::string onlySection; int onlySys = -1;
+    for (size_t k = 0; k + 1 < run.extra.size(); ++k) { if (run.extra[k] == "--section") onlySection = run.extra[k + 1]; if (run.extra[k] == "--sys") onlySys = atoi(run.extra[k + 1].c_str()); }
+    if (!onlySection.empty() || onlySys >= 0) { run.exhaustive = false; run.extraCoverage["restricted_to_section"] = "\"" + onlySection + " sys=" + std::to_string(onlySys) + "\""; }
+    auto want = [&](const char* sec) { return run.replaying() || onlySection.empty() || onlySection == sec; };
     std::vector<Cfg> all, abs, cps;
     for (int lat : lats) for (int integ = 0; integ < nInteg; ++integ) for (int mask = 0; mask < 32; ++mask) for (int wit = 0; wit < 3; ++wit) {
         if (!thorough && wit == 1) continue;
@@ -494,7 +815,7 @@ int main(int argc, char** argv) {
     run.extraCoverage["alphabet_size"] = std::to_string(A.size());
 
     // ---- section plain: every history of length <= 2, no merging
-    run.parallel("plain", (int64_t)all.size(), [&](int64_t i) {
+    if (want("plain")) run.parallel("plain", (int64_t)all.size(), [&](int64_t i) {
         quietWorker(run);
         const Cfg& cfg = all[i];
         std::set<uint64_t> firstKeys;
@@ -521,7 +842,7 @@ int main(int argc, char** argv) {
     });
 
     // ---- section bfs: AbstractIntegratorRep family, merging canonical states
-    run.parallel("bfs", (int64_t)abs.size(), [&](int64_t i) {
+    if (want("bfs")) run.parallel("bfs", (int64_t)abs.size(), [&](int64_t i) {
         quietWorker(run);
         const Cfg& cfg = abs[i];
         std::set<uint64_t> seen;
@@ -557,7 +878,7 @@ int main(int argc, char** argv) {
         struct Item { Cfg cfg; Op second; };
         std::vector<Item> items;
         for (auto& c : cps) for (auto& o : A) items.push_back({c, o});
-        run.parallel("cpodes", (int64_t)items.size(), [&](int64_t i) {
+        if (want("cpodes")) run.parallel("cpodes", (int64_t)items.size(), [&](int64_t i) {
         quietWorker(run);
             const Cfg& cfg = items[i].cfg;
             Op first; first.kind = 0; first.ri = 0; first.si = 0;
@@ -575,7 +896,7 @@ int main(int argc, char** argv) {
             flushCounters(run);
             if (i % 1201 == 0) run.sample("cpodes " + cfg.str() + " second=" + opStr(items[i].second) + " -> all continuations to length " + std::to_string(cpDepth));
         });
-        if (thorough) {
+        if (thorough && want("cpodes-full3")) {
             // all histories of length 3 with an unrestricted first call
             run.parallel("cpodes-full3", (int64_t)items.size(), [&](int64_t i) {
         quietWorker(run);
@@ -596,8 +917,81 @@ int main(int argc, char** argv) {
         }
     }
 
+
+    // ---- section systems: the SYSTEM dimension.  Systems 1..4, every integrator x option mask x witness variant; the first call is
+    // checked to ignore its arguments (all first calls of the alphabet leave one visible state), then below stepTo(now,now): breadth-first
+    // with merging of canonical hidden states (AbstractIntegratorRep family) / plain enumeration (CPodes) of all request sequences over
+    // the systems alphabet to the stated depth; every history is driven to EndOfSimulation and judged by the same clauses as system 0.
+    {
+        // lattice indices: 0 now, 1 an early time, 3 the time the witness c2 follows by 3e-6, 5 the final time, 6 a time past the final time, 7 infinity
+        // (stepTo only: Integrator::stepBy is a two-line wrapper that is exercised on system 0)
+        // CPodes histories cannot be merged (3-4 ms each on the multibody systems): they keep the 16-operation alphabet in the thorough tier
+        const std::vector<int> valsQuick = {0, 3, 5, 7}, valsThorough = {0, 1, 3, 5, 6, 7};
+        std::vector<Op> AsAbs, AsCp;
+        for (int ri : (thorough ? valsThorough : valsQuick)) for (int si : (thorough ? valsThorough : valsQuick)) { Op o; o.kind = 0; o.ri = ri; o.si = si; AsAbs.push_back(o); }
+        for (int ri : valsQuick) for (int si : valsQuick) { Op o; o.kind = 0; o.ri = ri; o.si = si; AsCp.push_back(o); }
+        const int sysDepth = thorough ? SYS_DEPTH_THOROUGH : SYS_DEPTH_QUICK;      // requests after the first call
+        std::vector<Cfg> sc;
+        for (int lat : lats) for (int sys = 1; sys < NSYS; ++sys) for (int integ = 0; integ < nInteg; ++integ) for (int mask = 0; mask < 32; ++mask) for (int wit = 0; wit < 5; ++wit) {
+            if (!thorough && wit == 1) continue;
+            if (sys == SysEvents && wit == 0) continue;          // the events system is the ode system plus its witness
+            if (sys != SysEvents && wit > 2) continue;           // variants 3, 4 (crossing just before a lattice time / the final time): events system only
+            if (!only.empty() && only != INTEG_NAMES[integ]) continue;
+            if (onlySys >= 0 && sys != onlySys) continue;
+            Cfg c; c.lat = lat; c.integ = integ; c.mask = mask; c.wit = wit; c.sys = sys;
+            sc.push_back(c);
+        }
+        run.extraCoverage["systems_configurations"] = std::to_string(sc.size());
+        run.extraCoverage["systems_alphabet_size"] = std::to_string(AsAbs.size());
+        run.extraCoverage["systems_alphabet_size_cpodes"] = std::to_string(AsCp.size());
+        run.extraCoverage["systems_depth_below_first_call"] = std::to_string(sysDepth);
+        if (want("systems")) run.parallel("systems", (int64_t)sc.size(), [&](int64_t i) {
+            quietWorker(run);
+            const Cfg& cfg = sc[i];
+            const std::vector<Op>& As = cfg.cpodes() ? AsCp : AsAbs;
+            const std::string tag = std::string("systems_") + SYS_NAMES[cfg.sys];
+            std::set<uint64_t> firstKeys; std::vector<Op> prefix; int64_t nHist = 0;
+            for (auto& o : As) {
+                const bool canonical = o.kind == 0 && o.ri == 0 && o.si == 0;
+                StepResult R = runHistory(run, cfg, prefix, o, true, canonical);      // the tail only below the canonical first call
+                if (!R.enabled) continue;
+                nHist++; firstKeys.insert(R.key);
+            }
+            run.expect(firstKeys.size() == 1, std::string("assumption/first-call-ignores-arguments/") + INTEG_NAMES[cfg.integ] + cfg.keySuffix(),
+                       [&] { return "the first stepTo/stepBy left " + std::to_string(firstKeys.size()) + " different visible states depending on its arguments; " + cfg.str(); },
+                       [&] { return run.replayHeader(); });
+            Op first; first.kind = 0; first.ri = 0; first.si = 0;
+            prefix = {first};
+            if (cfg.cpodes()) dfs(run, cfg, prefix, sysDepth, As, nHist, false);
+            else {
+                std::set<uint64_t> seen;
+                std::vector<std::vector<Op>> frontier = {prefix}, next;
+                for (int d = 1; d <= sysDepth && !frontier.empty(); ++d) {
+                    next.clear();
+                    for (auto& h : frontier) {
+                        if (run.expired()) break;
+                        for (auto& o : As) {
+                            StepResult R = runHistory(run, cfg, h, o, true);
+                            if (!R.enabled) continue;
+                            nHist++;
+                            if (seen.insert(R.key).second) {
+                                run.state(verif::hashMix(verif::hashStr(cfg.str()), R.key));
+                                if (!R.ended && !R.dead) { auto h2 = h; h2.push_back(o); next.push_back(h2); }
+                            } else run.count(tag + "_merged");
+                        }
+                    }
+                    frontier.swap(next);
+                }
+                run.count(tag + "_states", (int64_t)seen.size());
+            }
+            run.count(tag + "_histories", nHist);
+            flushCounters(run);
+            if (i % 211 == 0) run.sample("systems " + cfg.str() + " [" + cfg.optStr() + "] -> " + std::to_string(nHist) + " histories judged");
+        });
+    }
+
     // ---- section stepby-doc: Integrator.h documents stepBy's second argument as "the time of the next scheduled event"
-    run.parallel("stepby-doc", (int64_t)(2 * lats.size()), [&](int64_t i) {
+    if (want("stepby-doc")) run.parallel("stepby-doc", (int64_t)(2 * lats.size()), [&](int64_t i) {
         quietWorker(run);
         Cfg cfg; cfg.lat = lats[i / 2]; cfg.integ = (i % 2) ? 8 : 3; cfg.mask = OptFinal; cfg.wit = 0;
         const Lattice& L = cfg.L();
